@@ -130,8 +130,8 @@ func newSource(spec histSpec, t target, corpus map[string][]*rtp.Packet) (*sourc
 			return nil, fmt.Errorf("no codec adapter for %s", t.name)
 		}
 	case shCorpus:
-		s.explicit = corpus[spec.Corpus]
-		if s.explicit == nil {
+		s.queue = corpus[spec.Corpus]
+		if s.queue == nil {
 			return nil, fmt.Errorf("corpus file %q not found", spec.Corpus)
 		}
 	default:
@@ -214,7 +214,7 @@ func (s *source) next() *rtp.Packet {
 		if r.Intn(50) == 0 {
 			n = r.Intn(65536)
 		}
-		p.Payload = fresh(r, 0, n)
+		p.Payload = freshDense(r, n)
 		if len(p.Payload) > 0 && r.Intn(2) == 0 { // bias the first bytes towards header-field boundaries
 			p.Payload[0] = [...]byte{0, 0x1c, 0x7c, 0x18, 0x62, 0x60, 0x80, 0x40, 0xc0, 0x10, 0x06, 0x0b, 0xff, 1, 2, 3}[r.Intn(16)]
 		}
@@ -268,13 +268,13 @@ func (s *source) next() *rtp.Packet {
 		// phase 0: unitCap-1 complete fragmented units that nearly fill the frame buffer (no marker);
 		// phase 1: one start fragment, then middles for ever
 		if i == 0 {
-			cap := s.t.lim.unitCap
-			if cap == 0 || cap > 1000 {
-				cap = 9
+			ucap := s.t.lim.unitCap
+			if ucap == 0 || ucap > 1000 {
+				ucap = 9
 			}
-			per := (s.t.lim.maxFrame - s.t.lim.maxFrame/50) / (cap - 1) // bytes per unit
-			s.unit = max(2, per/max(s.spec.Size, 1))                      // fragments per unit
-			s.left = (cap - 1) * s.unit
+			per := (s.t.lim.maxFrame - s.t.lim.maxFrame/50) / (ucap - 1) // bytes per unit
+			s.unit = max(2, per/max(s.spec.Size, 1))                     // fragments per unit
+			s.left = (ucap - 1) * s.unit
 		}
 		switch {
 		case s.left > 0:
@@ -331,6 +331,35 @@ func (s *source) next() *rtp.Packet {
 			s.refill()
 		}
 		p, s.queue = s.queue[0], s.queue[1:]
+	case shCorpus:
+		// the stored packets as they are, then (longer histories) mutated copies of them
+		base := s.queue[i%len(s.queue)]
+		if i < len(s.queue) {
+			return base
+		}
+		c := *base
+		c.Payload = append([]byte(nil), base.Payload...)
+		if len(c.Payload) > 0 {
+			switch r.Intn(5) {
+			case 0, 1:
+				c.Payload[r.Intn(min(len(c.Payload), 8))] ^= 1 << uint(r.Intn(8))
+			case 2:
+				c.Payload[r.Intn(len(c.Payload))] = byte(r.Intn(256))
+			case 3:
+				c.Payload = c.Payload[:r.Intn(len(c.Payload)+1)]
+			}
+		}
+		switch r.Intn(6) {
+		case 0:
+			c.Marker = !c.Marker
+		case 1:
+			c.Timestamp += uint32(r.Intn(3))
+		}
+		s.seq++
+		if r.Intn(3) != 0 {
+			c.SequenceNumber = base.SequenceNumber + uint16(i/len(s.queue))*uint16(len(s.queue))
+		}
+		return &c
 	}
 	return p
 }
